@@ -59,6 +59,7 @@ INLINE = ["fcp.error:error", "fcp.error:FcpError.__init__", "fcp.error:FcpError.
 @contract("fcp.verifier:make_general_verifier.check_device_contains_services")
 def check_device_contains_services(self: "any", fcp: "ref:FcpV2", device: "ref:Device") -> "result[none,any]":
     note("the check ignores its node and scans every device: its verdict is the schema-wide clause")
+    option("inline_calls", ["fcp.specs.v2:FcpV2.get"])
     ensures(result.is_err() == missing_service(fcp))
     ensures(result.is_ok() == (not missing_service(fcp)))
     loop(0, over="fcp.get('device').unwrap()",
